@@ -12,6 +12,7 @@ import (
 	"fmt"
 	"net/http"
 	"net/http/httptest"
+	"net/url"
 	"sort"
 	"strings"
 	"sync"
@@ -25,6 +26,7 @@ import (
 	httpeh "github.com/dadrus/heimdall/internal/handler/middleware/http/errorhandler"
 	"github.com/dadrus/heimdall/internal/heimdall"
 	"github.com/dadrus/heimdall/internal/rules/mechanisms/cellib"
+	"github.com/dadrus/heimdall/internal/rules/mechanisms/errorhandlers"
 	"github.com/dadrus/heimdall/internal/x/errorchain"
 )
 
@@ -438,6 +440,8 @@ func runErrMap(c map[string]any) (any, error) {
 		cfg := c12ReadCfg(obj(c["cfg"]))
 
 		return map[string]any{"http": c12RunHTTP(cfg, c["accept"], err), "grpc": c12RunGRPC(cfg, c["accept"], err)}, nil
+	case "mech":
+		return c12RunMech(c)
 	case "svc":
 		return c12RunServices(c)
 	case "cfgkeys":
@@ -445,6 +449,50 @@ func runErrMap(c map[string]any) (any, error) {
 	}
 
 	return nil, fmt.Errorf("unknown op %q", getStr(c, "op"))
+}
+
+// op "mech": a redirect error handler is created by the real mechanism factory function from configuration and
+// executed on a request context; the pipeline error it leaves goes through both translators.
+type c12MechCtx struct {
+	req      *heimdall.Request
+	upstream http.Header
+	err      error
+}
+
+func (c *c12MechCtx) Request() *heimdall.Request              { return c.req }
+func (c *c12MechCtx) AddHeaderForUpstream(name, value string) { c.upstream.Add(name, value) }
+func (c *c12MechCtx) AddCookieForUpstream(_, _ string)        {}
+func (c *c12MechCtx) AppContext() context.Context             { return context.Background() }
+func (c *c12MechCtx) SetPipelineError(err error)              { c.err = err }
+func (c *c12MechCtx) Outputs() map[string]any                 { return map[string]any{} }
+
+func c12RunMech(c map[string]any) (any, error) {
+	conf := map[string]any{"to": getStr(c, "to")}
+	if _, ok := c["code"]; ok && !getBool(c, "unset") {
+		conf["code"] = getInt(c, "code")
+	}
+
+	eh, err := errorhandlers.CreatePrototype(nil, "verif_redirect", "redirect", conf)
+	if err != nil {
+		return map[string]any{"create": "rejected"}, nil //nolint:nilerr
+	}
+
+	mctx := &c12MechCtx{
+		req: &heimdall.Request{Method: http.MethodGet, URL: &heimdall.URL{URL: url.URL{Path: "/some/path"}}},
+		upstream: http.Header{},
+	}
+
+	if err = eh.Execute(mctx, errorchain.New(heimdall.ErrAuthentication)); err != nil {
+		return nil, fmt.Errorf("redirect handler: %w", err)
+	}
+
+	if mctx.err == nil {
+		return nil, errors.New("redirect handler left no pipeline error")
+	}
+
+	cfg := c12ReadCfg(obj(c["cfg"]))
+
+	return map[string]any{"http": c12RunHTTP(cfg, c["accept"], mctx.err), "grpc": c12RunGRPC(cfg, c["accept"], mctx.err)}, nil
 }
 
 var _ = envoy_core.HeaderValue{}
